@@ -3,10 +3,11 @@
    The numeric type is arbitrary up to the single law `nleb a b = true -> nltb b a = false` (le_lt_law),
    which holds for the reals and for binary64 (instances at the end); it is what makes `x[0] <= xq`
    imply `searchsorted(x, xq, "right") >= 1`.  No ordering of the axes is needed for safety. *)
-From Coq Require Import ZArith List Bool Lia Reals Lra.
+From Coq Require Import ZArith List Bool Lia Reals Lra PrimFloat.
 From FT.lib Require Import Num Arr ArrLemmas NumArr.
 From FT.gen Require Import Common Interp2d Interp3d Vinterp2d Vinterp3d.
 From FT.proofs Require Import SafetyTools.
+From FT.proofs Require NumFLaws.
 Import ListNotations.
 Open Scope Z_scope.
 
@@ -47,7 +48,7 @@ Proof.
   destruct (axis_facts x nx xq Law Ax Hnx) as (Dx & Sx & Rx & Px).
   destruct (axis_facts y ny yq Law Ay Hny) as (Dy & Sy & Ry & Py).
   pose proof (dim_0 _ _ _ Sv) as Dv0. pose proof (dim_1 _ _ _ _ Sv) as Dv1.
-  cbv beta delta [u_interp2d_v_ok]. rewrite Dx, Dy, Dv0, Dv1. cbn [fst snd].
+  cbv beta zeta iota delta [u_interp2d_v_ok fst snd]. rewrite Dx, Dy, Dv0, Dv1.
   abstract_ssr x xq. abstract_ssr y yq.
   ok_walk interp_leaf.
 Qed.
@@ -60,7 +61,7 @@ Proof.
   destruct (axis_facts x nx xq Law Ax Hnx) as (Dx & Sx & Rx & Px).
   destruct (axis_facts y ny yq Law Ay Hny) as (Dy & Sy & Ry & Py).
   pose proof (dim_0 _ _ _ Sv) as Dv0. pose proof (dim_1 _ _ _ _ Sv) as Dv1.
-  cbv beta delta [u_vinterp2d_v_ok]. rewrite Dx, Dy, Dv0, Dv1. cbn [fst snd].
+  cbv beta zeta iota delta [u_vinterp2d_v_ok fst snd]. rewrite Dx, Dy, Dv0, Dv1.
   abstract_ssr x xq. abstract_ssr y yq.
   ok_walk interp_leaf.
 Qed.
@@ -74,7 +75,7 @@ Proof.
   destruct (axis_facts y ny yq Law Ay Hny) as (Dy & Sy & Ry & Py).
   destruct (axis_facts z nz zq Law Az Hnz) as (Dz & Sz & Rz & Pz).
   pose proof (dim_0 _ _ _ Sv) as Dv0. pose proof (dim_1 _ _ _ _ Sv) as Dv1. pose proof (dim_2 _ _ _ _ _ Sv) as Dv2.
-  cbv beta delta [u_interp3d_v_ok]. rewrite Dx, Dy, Dz, Dv0, Dv1, Dv2. cbn [fst snd].
+  cbv beta zeta iota delta [u_interp3d_v_ok fst snd]. rewrite Dx, Dy, Dz, Dv0, Dv1, Dv2.
   abstract_ssr x xq. abstract_ssr y yq. abstract_ssr z zq.
   ok_walk interp_leaf.
 Qed.
@@ -88,8 +89,46 @@ Proof.
   destruct (axis_facts y ny yq Law Ay Hny) as (Dy & Sy & Ry & Py).
   destruct (axis_facts z nz zq Law Az Hnz) as (Dz & Sz & Rz & Pz).
   pose proof (dim_0 _ _ _ Sv) as Dv0. pose proof (dim_1 _ _ _ _ Sv) as Dv1. pose proof (dim_2 _ _ _ _ _ Sv) as Dv2.
-  cbv beta delta [u_vinterp3d_v_ok]. rewrite Dx, Dy, Dz, Dv0, Dv1, Dv2. cbn [fst snd].
+  cbv beta zeta iota delta [u_vinterp3d_v_ok fst snd]. rewrite Dx, Dy, Dz, Dv0, Dv1, Dv2.
   abstract_ssr x xq. abstract_ssr y yq. abstract_ssr z zq.
   ok_walk interp_leaf.
 Qed.
 End SI.
+
+(* ---------- the law holds for the two numeric types in use ---------- *)
+Lemma le_lt_law_R : le_lt_law (T := R).
+Proof. intros a b. simpl. rewrite Rleb_true, Rltb_false. auto. Qed.
+
+Lemma le_lt_law_F : le_lt_law (T := PrimFloat.float).
+Proof. intros a b. simpl. apply NumFLaws.leb_ltb_false. Qed.
+
+Corollary interp2d_ok_true_F (x y v : arr PrimFloat.float) xq yq fval nx ny :
+  axisn x nx -> axisn y ny -> 2 <= nx -> 2 <= ny -> shape v = [nx; ny] ->
+  u_interp2d_v_ok true false x y v xq yq fval = true.
+Proof. apply interp2d_ok_true. exact le_lt_law_F. Qed.
+Corollary interp2d_ok_true_R (x y v : arr R) xq yq fval nx ny :
+  axisn x nx -> axisn y ny -> 2 <= nx -> 2 <= ny -> shape v = [nx; ny] ->
+  u_interp2d_v_ok true false x y v xq yq fval = true.
+Proof. apply interp2d_ok_true. exact le_lt_law_R. Qed.
+
+(* ---------- `2 <= nx` is needed: a one-node axis makes the kernel read x[-2] ---------- *)
+Example interp2d_ok_single_node_refuted :
+  exists x y v xq yq fval, u_interp2d_v_ok (T := PrimFloat.float) true false x y v xq yq fval = false.
+Proof.
+  exists (mkarr [1] [0%float]), (mkarr [2] [0%float; 1%float]), (mkarr [1; 2] [0%float; 1%float]),
+         0%float, 0%float, PrimFloat.nan.
+  vm_compute. reflexivity.
+Qed.
+(* the same inputs satisfy every other hypothesis of interp2d_ok_true *)
+Example interp2d_single_node_hyps :
+  axisn (mkarr [1] [0%float]) 1 /\ axisn (mkarr [2] [0%float; 1%float]) 2 /\
+  shape (mkarr [1; 2] [0%float; 1%float]) = [1; 2].
+Proof. repeat split. Qed.
+
+Print Assumptions interp2d_ok_true.
+Print Assumptions vinterp2d_ok_true.
+Print Assumptions interp3d_ok_true.
+Print Assumptions vinterp3d_ok_true.
+Print Assumptions le_lt_law_R.
+Print Assumptions le_lt_law_F.
+Print Assumptions interp2d_ok_single_node_refuted.
